@@ -45,7 +45,7 @@ inductive Lock
   | opcacheLocked
   /-- `operatorCache.freelocked` spin lock (fd_operator_cache.go:69-71,75-76). -/
   | opcacheFreelocked
-  /-- `ShardQueue.locks[shard]` spin lock (mux/shard_queue.go:97-100,146-150). -/
+  /-- `ShardQueue.locks[shard]` spin lock (mux/shard_queue.go:101-104,128-130,163-167). -/
   | shardLock
   /-- `queueTrigger.listLock` mutex (mux/shard_queue.go:123-126). -/
   | listLock
@@ -298,8 +298,9 @@ def policyTab : List (Nm × Disc) := [
   -- ---------------------------------------------------------------- mux.ShardQueue (mux/shard_queue.go:65-89)
   (nm!"mux.ShardQueue.conn", .initOnly nms!["mux.NewShardQueue"]),
   (nm!"mux.ShardQueue.size", .initOnly nms!["mux.NewShardQueue"]),
-  -- shard slices: Add (:97-100) and the worker's swap (:146-150) between q.lock(shard) and q.unlock(shard)
-  (nm!"mux.ShardQueue.getters", .guarded .shardLock nms!["mux.ShardQueue.Add", "mux.ShardQueue.foreach$1"] nms!["mux.NewShardQueue"]),
+  -- shard slices: Add (:101-104), the worker's swap (:163-167) and Close's look at a shard in drained (:128-130)
+  -- between q.lock(shard) and q.unlock(shard)
+  (nm!"mux.ShardQueue.getters", .guarded .shardLock nms!["mux.ShardQueue.Add", "mux.ShardQueue.foreach$1", "mux.ShardQueue.drained"] nms!["mux.NewShardQueue"]),
   (nm!"mux.ShardQueue.idx", .atomicOnly []),
   (nm!"mux.ShardQueue.locks", .atomicOnly nms!["mux.NewShardQueue"]),
   -- swap, r: only the worker, i.e. the closure started by the goroutine that raised runNum 0→1 (:136-139), until :163
